@@ -23,16 +23,15 @@ CLAIM = dict(
           "board counts are modelled (ZeroDivisionError / empty list / ValueError) but outside the property."),
     technique="Lean 4 theorems over a hand-written model + translator for the tables + differential correspondence + Lean spec as oracle")
 
-THEOREMS_ALL = ["table_shape", "table_cells", "board_has_48_chips", "links_documented",
-            "tile_unique", "tile_cover",
-            "local_eth_spec", "spec_local_unique", "local_eth_torus", "local_eth_torus_unique", "local_eth_no_wrap",
-            "chip_coord_is_offset",
-            "eth_coords_mem", "eth_coords_nodup", "eth_coords_spec", "local_eth_mem_eth_coords",
-            "fpga_table_edges", "fpga_table_numbering", "fpga_link_spec", "fpga_link_iff_leaves_board",
-            "fpga_link_distinct",
-            "std_dims_spec", "std_dims_squarest", "std_dims_errors"]
 
-THEOREMS = ["table_shape"]
+THEOREMS = ["table_shape", "table_cells", "board_has_48_chips", "links_documented", "eth_triple_documented",
+            "tile_unique", "tile_cover", "chip_coord_is_offset",
+            "local_eth_spec", "spec_local_unique", "local_eth_torus", "local_eth_torus_unique", "local_eth_no_wrap",
+            "eth_coords_mem", "eth_coords_nodup", "spec_eth_coords_iff", "eth_coords_spec", "eth_coords_root_mod12",
+            "local_eth_mem_eth_coords",
+            "fpga_table_edges", "fpga_table_numbering", "fpga_link_spec", "fpga_link_iff_leaves_board",
+            "fpga_link_on_board", "fpga_link_distinct", "fpga_board_spec",
+            "std_dims_spec", "std_dims_squarest", "std_dims_errors"]
 
 RULE = ("(a) every cell of the 12x12 table x 6 links (+ invalid link numbers) for root (0,0) and random roots on 12x12 "
         "and larger machines; (b) random (w, h, root, x, y) with w,h multiples of 12, ragged, 1 and a few 0, x,y inside, "
